@@ -118,6 +118,14 @@ def _c03(pid, tier):
 REGISTRY["C03"] = _c03
 
 
+def _c19(pid, tier):
+    from . import c19
+    return c19.check(pid, tier)
+
+
+REGISTRY["C19"] = _c19
+
+
 def main(argv=None):
     ap = argparse.ArgumentParser()
     ap.add_argument("pid")
